@@ -65,9 +65,6 @@ Fixpoint freshes (p : pt) (vals : list (name * Z)) (V : list name) (pl : pipelin
   | us :: r => let vals' := override us vals in fst (run_tree p vals' V pl) :: freshes p vals' V pl r
   end.
 
-Definition tent_obs (e : tent) : Z * N * bool :=
-  (te_count e, te_wf e, match te_vol e with Some _ => true | None => false end).
-
 Definition tab_obs_of (st : tstate) (w : bool) : tab_obs :=
   Tb (t_adv st) (map (map tent_obs) (t_tabs st)) (t_wfs st) (map fst (t_pos st)) w.
 
